@@ -88,7 +88,14 @@ class JaqalLexer(Lexer):
         return token
 
     def INT(self, token):
-        token.value = int(token.value)
+        try:
+            token.value = int(token.value)
+        except ValueError:
+            # Python refuses to convert digit strings beyond a length limit
+            column = token.index - self.text.rfind("\n", 0, token.index)
+            raise JaqalParseError(
+                "<string>", self.lineno, column, "Integer literal is too long"
+            )
         return token
 
     def NUMBER(self, token):
@@ -497,7 +504,11 @@ class JaqalParser(Parser):
         if token is not None:
             line = token.lineno
             col = self.compute_col(token.index)
-            msg = f"At token `{token.value}`"
+            try:
+                msg = f"At token `{token.value}`"
+            except ValueError:
+                # an integer too long for Python to write in decimal
+                msg = "At a very long integer literal"
         else:
             line = "EOF"
             col = 0
